@@ -3,6 +3,7 @@
 cd "$(dirname "$0")/.."
 for d in ${SEEDS:-seeded/*}; do
   id=$(basename $d); pid=${id%%-*}
+  if grep -q '"obsolete"' "$d/meta.json" 2>/dev/null; then echo "$id obsolete (see meta.json)"; continue; fi
   out=$(tools/try_seed.sh "$PWD/$d/patch.diff" $pid 2>&1)
   if echo "$out" | grep -a -q "PATCH-DOES-NOT-APPLY"; then echo "$id DOES-NOT-APPLY";
   elif echo "$out" | grep -a -q "HARNESS"; then echo "$id HARNESS-ERROR";
